@@ -333,6 +333,8 @@ def _instances(tier):
     yield _mk("MinFlowDecompCycles", EC, "int", cons=[[["a", "m"], ["m", "d"]]])
     if not quick:
         yield _mk("kFlowDecompCycles", EC, "int", 3, cons=[[["a", "m"], ["m", "d"]]])
+    # a walk goes around two cycles a different number of times: {1, 5} generate the flow values only WITH repetition (min-gen-set lower bound of the cyclic model)
+    yield _mk("MinFlowDecompCycles", [["s", "a", 6], ["a", "c1", 2], ["c1", "a", 2], ["a", "b", 6], ["b", "c2", 3], ["c2", "b", 3], ["b", "t", 6]], "int")
     # figure-eight: the walk s a b c a b t re-enters the SCC edge a->b, so a safe sequence holds one edge twice; every rotation of the
     # insertion order of the edges (the column order of the edge variables differs from the order along the walk)
     F8 = [["c", "a", 2], ["a", "b", 4], ["b", "c", 2], ["s", "a", 2], ["b", "t", 2]]
